@@ -81,6 +81,22 @@ def verdict (ok : Bool) (what body : String) : String :=
 
 def stateOk (s : St) : Bool := s.impl.entries == s.spec.entries
 
+/-- `obs ?`: the harness could not rebuild the batch tree of this call (scheduler dependent); the model then
+assumes the Spec effect (correspondence of this op is not checked; the harness' own oracle still is) -/
+def unobserved (st : St) (op : List String) : St × String :=
+  match op with
+  | ["bput", its] =>
+    match parseList parseItem its with
+    | some its =>
+      (⟨its.foldl (fun m it => m.insert it.1 it.2) st.impl, its.foldl (fun m it => m.insert it.1 it.2) st.spec⟩, "unobserved")
+    | none => (st, "bad-op")
+  | ["bdel", ks] =>
+    match parseList parseHex ks with
+    | some ks => (⟨ks.foldl (fun m k => m.erase k) st.impl, ks.foldl (fun m k => m.erase k) st.spec⟩, "unobserved")
+    | none => (st, "bad-op")
+  | ["bget", _] => (st, "unobserved")
+  | _ => (st, "bad-op")
+
 def step (st : St) (line : String) : St × String :=
   let w := words line
   match w with
@@ -93,6 +109,7 @@ def step (st : St) (line : String) : St × String :=
   | some (op, obs) =>
     let bad : St × String := (st, "bad-op")
     let exhausted : St × String := (st, "exhausted")
+    if obs == "?" then unobserved st op else
     match op with
     | ["put", k, v, _ttl] =>
       match parseHex k, parseVal v, parseSScript obs with
